@@ -4,6 +4,7 @@
 import PcVerif.Model.Langs
 import PcVerif.Model.SamiWriter
 import PcVerif.Props.C02
+import PcVerif.Lemmas.SamiStyleLemmas
 namespace PcVerif.Props.C14
 open PcVerif PcVerif.Langs PcVerif.SamiW
 
@@ -96,5 +97,22 @@ theorem primary_syncs_sorted (caps : List (Rat × Rat)) (hw : WellTimed 0 caps) 
     NonDecFrom 0 ((plan [caps]).map (·.start)) := by
   rw [Props.C02.sami_single_language_plan]
   exact specPrimary_sorted 0 none 0 0 caps hw (by intro e he; cases he)
+
+/-! ### SAMI output: every language is declared in the stylesheet -/
+
+theorem sami_lang_test_pinned : Generated.samiLangTestPre = some "lang: " ∧ Generated.samiLangTestPost = some ";" :=
+  SamiW.lang_test_pinned
+
+/-- **C14 (SAMI, no language is lost on writing).** whatever the stylesheet holds already and whatever the language codes
+    are — prefixes of one another included — after the writer's loop over the languages the stylesheet contains the rule
+    `lang: <code>;` of every language of the set, so that every `<p class=code>` is read back under its language -/
+theorem stylesheet_declares_every_language (extra : Str → Str) (sheet : Str) (langs : List Str) :
+    ∀ l ∈ langs, Str.contains (langRule l) (declareLangs langRule extra sheet langs) = true :=
+  SamiW.declares_all extra langs sheet
+
+/-- the test as it was before the repair c3a3023 (`'lang: es'`, no semicolon) left `es` undeclared after `est` -/
+theorem stylesheet_old_test_counterexample :
+    Str.contains (langRule "es".toList)
+      (declareLangs (fun l => "lang: ".toList ++ l) (fun _ => []) "<!--".toList ["est".toList, "es".toList]) = false := by decide
 
 end PcVerif.Props.C14
